@@ -251,6 +251,8 @@ func genTable(r *Rng, u *Universe, name, stream string, o SchemaOpts) TableDef {
 				t.PartitionBy = append(t.PartitionBy, d.Name)
 			}
 		}
+		// the order in which a schema lists the keys is arbitrary
+		r.Shuffle(len(t.PartitionBy), func(i, j int) { t.PartitionBy[i], t.PartitionBy[j] = t.PartitionBy[j], t.PartitionBy[i] })
 	}
 	return t
 }
